@@ -98,24 +98,28 @@ Definition enc_fate (x : fate) : N :=
 Definition enc_fobs (o : fobs) : list N :=
   match o with ONone => [] | OBool b => [bN b] | OFate x => [enc_fate x] end.
 
-Definition fil_step (f : pfilter) (p : pbl) (e : fevent) (now : N) : pfilter * pbl * list N :=
-  let '(f', p', o) := fstep f p e now in (f', p', enc_fobs o).
+(* filter cases observe everything; receive-path cases (the Filter sits inside RecvHandler) observe
+   the fate of the datagram - "dropped" without the stage - and the global lists *)
+Definition enc_fobs_merged (o : fobs) : list N :=
+  match o with OFate DropNodeStage => [0] | _ => enc_fobs o end.
 
-Definition fil_obs (r : pfilter * pbl * list N) : list N :=
-  let '(f, p, o) := r in o ++ dump_pbl p ++ dump_filter f.
+Definition fil_obs (full : bool) (r : pfilter * pbl * fobs) : list N :=
+  let '(f, p, o) := r in
+  if full then enc_fobs o ++ dump_pbl p ++ dump_filter f else enc_fobs_merged o ++ dump_pbl p.
 
 (* event, lo, hi, implementation's observation *)
 Definition fcstep := (fevent * N * N * list N)%type.
 
-Fixpoint fil_steps (f : pfilter) (p : pbl) (steps : list fcstep) (idx : N) : option (N * list N * list N) :=
+Fixpoint fil_steps (full : bool) (f : pfilter) (p : pbl) (steps : list fcstep) (idx : N)
+  : option (N * list N * list N) :=
   match steps with
   | [] => None
   | (e, lo, hi, expect) :: rest =>
-    let r1 := fil_step f p e lo in
-    let r2 := fil_step f p e hi in
-    let e1 := fil_obs r1 in
-    if list_N_eqb e1 (fil_obs r2) then
-      if list_N_eqb e1 expect then fil_steps (fst (fst r1)) (snd (fst r1)) rest (idx + 1)
+    let r1 := fstep f p e lo in
+    let r2 := fstep f p e hi in
+    let e1 := fil_obs full r1 in
+    if list_N_eqb e1 (fil_obs full r2) then
+      if list_N_eqb e1 expect then fil_steps full (fst (fst r1)) (snd (fst r1)) rest (idx + 1)
       else Some (idx, e1, expect)
     else None      (* the outcome depends on the position of the clock inside the bracket *)
   end.
@@ -141,12 +145,12 @@ Definition mk_rate (r : option (N * (N * N) * option (N * N) * option (N * N))) 
     end
   end.
 
-Definition fil_case (c : filcase) : option mismatch :=
+Definition fil_case (full : bool) (c : filcase) : option mismatch :=
   let '(id, en, r, ban, mn, mb, steps) := c in
   match mk_rate r with
   | None => Some {| mm_case := id; mm_step := 0; mm_model := [99]; mm_impl := [] |}
   | Some rate =>
-    match fil_steps (new_filter en rate ban mn mb) empty_pbl steps 0 with
+    match fil_steps full (new_filter en rate ban mn mb) empty_pbl steps 0 with
     | None => None
     | Some (i, m, e) => Some {| mm_case := id; mm_step := i; mm_model := m; mm_impl := e |}
     end
@@ -154,13 +158,13 @@ Definition fil_case (c : filcase) : option mismatch :=
 
 (* ---------------------------------------------------------------------------------------------- *)
 
-Inductive c18case := CLim (c : limcase) | CFil (c : filcase).
+Inductive c18case := CLim (c : limcase) | CFil (c : filcase) | CInb (c : filcase).
 
 Fixpoint check_all (ks : list c18case) : list mismatch :=
   match ks with
   | [] => []
   | k :: rest =>
-    match (match k with CLim c => lim_case c | CFil c => fil_case c end) with
+    match (match k with CLim c => lim_case c | CFil c => fil_case true c | CInb c => fil_case false c end) with
     | Some m => m :: check_all rest
     | None => check_all rest
     end
